@@ -163,6 +163,8 @@ class Node:
         self.expected_reach_min_rewards = 0
         self.num_states = num_states
         self.check_next_states()
+        # own copy: pruning edits next_states in place and must not reach the caller's lists
+        self.next_states = list(self.next_states)
 
     def __eq__(self, other):
         return (
